@@ -128,7 +128,7 @@ func runVote(ctx *action.Context, tx action.RawTx) (bool, action.Response) {
 	// Peek vote result based on collected votes so far
 	options, err := ctx.GovernanceStore.GetProposalOptionsByType(proposal.Type)
 	if err != nil {
-		helpers.LogAndReturnFalse(ctx.Logger, gov.ErrGetProposalOptions, vote.Tags(), err)
+		return helpers.LogAndReturnFalse(ctx.Logger, gov.ErrGetProposalOptions, vote.Tags(), err)
 	}
 	stat, err := pms.ProposalVote.ResultSoFar(vote.ProposalID, options.PassPercentage)
 	if err != nil {
